@@ -178,6 +178,19 @@ def exec (a : List String) : String :=
           -- JSON encoding of every document reads back to the tree
           let jsonOk := ts.all fun t => match readJson (toJson t) with | some t' => t'.beq t | none => false
           got ++ " TREE-OK " ++ (if jsonOk then "JSON-OK" else "MODEL-SPEC-JSON")
+  -- cli …: same stream checks; the CLI must print one JSON value per document equal to the tree
+  | ["cli", br, nd, toks, _feat, hex] =>
+    match parseStream br nd toks with
+    | none => "BAD-REQUEST"
+    | some ps =>
+      if !admissible ps then "NOT-ADMISSIBLE" else
+      let bytes := render ps
+      if hexOfBytes bytes != hex then "RENDER-MISMATCH " ++ hexOfBytes bytes else
+      match loadRef bytes with
+      | .error e => "MODEL-SPEC loadRef-error " ++ errStr e
+      | .ok ts =>
+        if canonDocs ts != canonDocs ps.trees then "MODEL-SPEC tree"
+        else s!"CLI-OK {ts.length}"
   -- suite <id> <yaml hex> <expected json hex>: YAML Test Suite case
   | ["suite", _, yhex, jhex] =>
     match loadRef (bytesOfHex yhex) with
